@@ -199,14 +199,14 @@ theorem mField_pslice (t : Ty) (hwf : (Ty.pslice t).wf) (hs : Ty.rtShape false t
       generalize hEE : (xs.flatMap fun v => appendTag WT.len i ++ (appendVarUint (t.app v []).length ++ t.app v [])) = E
         at hsz hf ⊢
       have hBl : B.length < 2 ^ 64 := by omega
-      have hread := rt_elem t hwf.1 hs hwf.2.1 hwf.2.2 ih x (hty x (by simp)) (by rw [hB]; exact hBl)
+      have hread := rt_elem t hwf.1 hs hwf.2.1 hwf.2.2.1 ih x (hty x (by simp)) (by rw [hB]; exact hBl)
       rw [hB] at hread
       have hread' : (Ty.pslice t).read .len B a
           = .ok (.slice (slicePrior a ++ [elemNorm t x]), B.length) := by
         rw [read_pslice_norm]; simp only [Ty.read, hread]
       rw [frame_step (.pslice t) i hi rd put hrd B (E ++ rest) hBl a _ hread' fuel off
         (by simp only [List.length_append]; omega)]
-      have := pslice_loop t hwf.1 hs hwf.2.1 hwf.2.2 ih i hi rd put hrd xs (slicePrior a ++ [elemNorm t x]) fuel rest
+      have := pslice_loop t hwf.1 hs hwf.2.1 hwf.2.2.1 ih i hi rd put hrd xs (slicePrior a ++ [elemNorm t x]) fuel rest
         (off + ((appendTag WT.len i).length + ((appendVarUint B.length).length + B.length)))
         (fun y hy => hty y (by simp [hy]))
       simp only [elemFrame, List.append_assoc, hEE] at this
